@@ -222,25 +222,33 @@ class _ModeB(Unit):
     timeout_ms = 5000
 
 
-class C12Fresh(_ModeB):
-    name = "C12.modeb.fresh_reset"
+class _C12FreshReset(_ModeB):
     functions = FUNCS_COMMON + [("cobyqa.models", "Quadratic.__init__"), ("cobyqa.models", "Models.reset_models")]
-    bounded = ("exact symbolic execution at fixed dimensions: n=1 (npt 2,3) and n=2 (npt 3..6) with FULLY SYMBOLIC geometry "
-               "(x_base and all interpolation points are symbols) and n=2 (npt 3..6), n=3 (npt 4,7,10) with a seeded generic "
-               "rational geometry (VERIF_SEED); function values always symbolic; for reset the models before the reset are in "
-               "an arbitrary symbolic state; 1 objective + 1 inequality + 1 equality model; "
-               "thorough tier adds n=3 symbolic geometry (npt 4) and n=4 rational (npt 5,9,15)")
+    plan = ()
 
     def run(self, c):
         cs = Cases(c, self)
-        plan = [(1, p, True) for p in npts(1)] + [(2, p, True) for p in npts(2)] + [(2, p, False) for p in npts(2)] \
-            + [(3, p, False) for p in npts(3)]
-        if THOROUGH:
-            plan += [(3, 4, True)] + [(4, p, False) for p in (5, 9, 15)]
-        for n, p, sym in plan:
-            req = n <= 2 and not sym or n == 1
-            cs.run(f"C12.fresh[n={n},npt={p},{gtag(sym)}]", lambda e, n=n, p=p, sym=sym: case_fresh(e, n, p, sym), 15, req)
-            cs.run(f"C12.reset[n={n},npt={p},{gtag(sym)}]", lambda e, n=n, p=p, sym=sym: case_reset(e, n, p, sym), 15, req)
+        for n, p, sym, req in self.plan:
+            cs.run(f"C12.fresh[n={n},npt={p},{gtag(sym)}]", lambda e, n=n, p=p, sym=sym: case_fresh(e, n, p, sym), 40, req)
+            cs.run(f"C12.reset[n={n},npt={p},{gtag(sym)}]", lambda e, n=n, p=p, sym=sym: case_reset(e, n, p, sym), 40, req)
+
+
+class C12FreshSym(_C12FreshReset):
+    name = "C12.modeb.fresh_reset.symbolic_geometry"
+    bounded = ("exact symbolic execution at fixed dimensions n=1 (npt 2,3) and n=2 (npt 3) with FULLY SYMBOLIC geometry (x_base "
+               "and all interpolation points are symbols); function values symbolic; for reset the models before the reset are "
+               "in an arbitrary symbolic (even non-interpolating) state; 1 objective + 1 inequality + 1 equality model; "
+               "n=2,npt=4 only in the thorough tier (the exact inverse of the symbolic 7x7 system alone takes ~100 s); "
+               "n=2,npt>=5 and n>=3 with symbolic geometry did not finish in 60 s and are not claimed")
+    plan = [(1, 2, True, True), (1, 3, True, True), (2, 3, True, True)] + ([(2, 4, True, False)] if THOROUGH else [])
+
+
+class C12FreshRat(_C12FreshReset):
+    name = "C12.modeb.fresh_reset.rational_geometry"
+    bounded = ("exact symbolic execution at fixed dimensions n=2 (npt 3..6), n=3 (npt 4,7,10), n=4 (npt 5,9,15) with a seeded "
+               "generic rational geometry (VERIF_SEED; poisedness det W != 0 checked); function values symbolic; for reset the "
+               "models before the reset are in an arbitrary symbolic state; 1 objective + 1 inequality + 1 equality model")
+    plan = [(2, p, False, True) for p in npts(2)] + [(3, p, False, True) for p in npts(3)] + [(4, p, False, False) for p in (5, 9, 15)]
 
 
 class _C12Update(_ModeB):
@@ -276,10 +284,10 @@ class C12UpdateN2(_C12Update):
 
 class C12UpdateN2Sym(_C12Update):
     name = "C12.modeb.update.n2.symbolic_geometry"
-    bounded = ("exact symbolic execution, n=2, npt=3 every k_new and npt in {4,5,6} with k_new=0 (cases that exceed 25 s are "
-               "skipped and reported on stderr); " + PRE + "geometry FULLY SYMBOLIC (x_base, all points, x_new are symbols)")
-    plan = [(2, 3, range(3), True, True, True), (2, 4, [0], True, True, False), (2, 5, [0], True, True, False),
-            (2, 6, [0], True, True, False)]
+    bounded = ("exact symbolic execution, n=2, npt=3, every k_new; " + PRE + "geometry FULLY SYMBOLIC (x_base, all points, x_new "
+               "are symbols); npt=4 (k_new=0) only in the thorough tier; larger npt with symbolic geometry did not finish and "
+               "are not claimed")
+    plan = [(2, 3, range(3), True, True, True)] + ([(2, 4, [0], True, True, False)] if THOROUGH else [])
 
 
 class C12UpdateN3(_C12Update):
@@ -313,21 +321,33 @@ class C12UpdateIll(_ModeB):
                        lambda e, n=n, p=p, k=k: case_update(e, n, p, k, False, False, ill=True), 20, n <= 2)
 
 
-class C12Shift(_ModeB):
-    name = "C12.modeb.shift"
+class _C12Shift(_ModeB):
     functions = FUNCS_COMMON + [("cobyqa.models", "Models.shift_x_base"), ("cobyqa.models", "Quadratic.shift_x_base"),
                                 ("cobyqa.models", "Quadratic.grad"), ("cobyqa.models", "Quadratic.hess_prod"),
                                 ("cobyqa.models", "Models.fun"), ("cobyqa.models", "Models.cub"), ("cobyqa.models", "Models.ceq")]
-    bounded = ("exact symbolic execution; " + PRE + "new base point and the probe point x symbolic; geometry FULLY SYMBOLIC for "
-               "n=1 (npt 2,3), n=2 (npt 3..6), n=3 (npt 4,7,10); thorough tier adds n=4 (npt 5,9,15)")
+    plan = ()
 
     def run(self, c):
         cs = Cases(c, self)
-        plan = [(n, p, True) for n in (1, 2, 3) for p in npts(n)]
-        if THOROUGH:
-            plan += [(4, p, True) for p in (5, 9, 15)]
-        for n, p, sym in plan:
-            cs.run(f"C12.shift[n={n},npt={p},{gtag(sym)}]", lambda e, n=n, p=p, sym=sym: case_shift(e, n, p, sym), 20, n <= 2)
+        for n, p, sym, req in self.plan:
+            cs.run(f"C12.shift[n={n},npt={p},{gtag(sym)}]", lambda e, n=n, p=p, sym=sym: case_shift(e, n, p, sym), 30, req)
 
 
-UNITS = [C12Fresh(), C12UpdateN1(), C12UpdateN2(), C12UpdateN2Sym(), C12UpdateN3(), C12UpdateIll(), C12Shift()]
+class C12ShiftSmall(_C12Shift):
+    name = "C12.modeb.shift.n12"
+    bounded = ("exact symbolic execution; " + PRE + "new base point and the probe point x symbolic; geometry FULLY SYMBOLIC; "
+               "n=1 (npt 2,3), n=2 (npt 3..6)")
+    plan = [(n, p, True, True) for n in (1, 2) for p in npts(n)]
+
+
+class C12ShiftN3(_C12Shift):
+    name = "C12.modeb.shift.n3"
+    bounded = ("exact symbolic execution; " + PRE + "new base point and the probe point x symbolic; n=3: geometry FULLY SYMBOLIC "
+               "for npt 4 and 7, seeded generic rational geometry for npt 10 (symbolic npt=10 and n=4, npt 5,9,15 in the thorough "
+               "tier)")
+    plan = [(3, 4, True, True), (3, 7, True, False), (3, 10, False, False)] \
+        + ([(3, 10, True, False)] + [(4, p, True, False) for p in (5, 9, 15)] if THOROUGH else [])
+
+
+UNITS = [C12FreshSym(), C12FreshRat(), C12UpdateN1(), C12UpdateN2(), C12UpdateN2Sym(), C12UpdateN3(), C12UpdateIll(),
+         C12ShiftSmall(), C12ShiftN3()]
